@@ -275,6 +275,14 @@ class Ctx(Acc):
         for c, m in self.required:
             if self.counters.get(c, 0) < m:
                 self.inconclusive.append(f"required counter {c}={self.counters.get(c, 0)} < {m}")
+        # an exception that escaped a monitor is a defect of the harness: what that worker would have observed is unknown
+        if self.counters.get("worker_exceptions", 0):
+            first = next((n for n in self.notes if n.startswith("worker exception")), "")
+            self.inconclusive.append(f"{self.counters['worker_exceptions']} worker(s) died in the harness itself: {first[-600:]}")
+        # scenarios the repository's factory refused to build: tolerated only as a small fraction of the workload
+        nb = self.counters.get("worker_inconclusive", 0)
+        if nb > max(2, 0.05 * self.counters.get("workers_ok", 0)):
+            self.inconclusive.append(f"{nb} workers could not build or run their case at all")
         distinct = len(self.keys) + self.keys_overflow
         cov = {"evaluations": int(self.evaluations), "distinct_nontrivial": int(distinct), "rule": self.rule,
                "samples": self.samples[:10] or [], "counters": jsonable(self.counters),
